@@ -940,6 +940,12 @@ class GeneralThermodynamics:
             if cs_matrix is None or cs_precip is None:
                 self._compset_cache_df[precPhase] = None
                 return None
+            # A precipitate that collapsed onto the matrix composition (order/disorder models) or a matrix on the lower
+            # composition bound of the solver is not a two-phase equilibrium that the driving force methods can use
+            x_matrix = np.array(cs_matrix.X, dtype=np.float64)
+            if np.allclose(x_matrix, np.array(cs_precip.X, dtype=np.float64), rtol=0, atol=1e-6) or np.any(x_matrix < 1e-10):
+                self._compset_cache_df[precPhase] = None
+                return None
             self._compset_cache_df[precPhase] = [cs_matrix, cs_precip]
             return chemical_potentials, cs_matrix, cs_precip
     
